@@ -84,6 +84,7 @@ fn edited(ex: &Ex) {
     let mut l = Local::default();
     // all three structure families, full comparison (the expected protected slot is the wire bytes)
     crate::spaces::c03::edited_after_decode(ex, "SME", &mut l);
+    crate::spaces::c03::built_then_edited(ex, "SME", &mut l);
     // re-encoding
     let edit = subject::c_header(&crate::spaces::c11::single_field_headers()[0]).unwrap();
     for wire in [vec![], vec![0xa0u8], vec![0xa1, 0x01, 0x38, 0x06]] {
